@@ -153,4 +153,39 @@ def observe (before : Nat) (s : State) : String :=
   s!"vals={showNats (s.vals.map (·.vid))} raws={showNats s.raws} C={",".intercalate cs} W={",".intercalate ws} heap={" ".intercalate heap}"
 
 
+/-- `makeMutField q k` — `Rc::make_mut(&mut value.held[k])` executed *in place* on a handle stored
+inside the value of the object of handle `q` — is not an action of the model: the driver expands it
+into the history `take q k ; makeMut <the handle just taken> ; store <it> q` (the harness really runs
+it in place and then moves the slot to the end of the field vector, which the library cannot see).
+The expansion is faithful unless the stored handle designates the holder itself (the in-place clone
+would copy the slot, the expansion would not): that case is a no-op on both sides.  Returns the
+state after the expansion. -/
+def makeMutField (s : State) (q k : Nat) (hint : List Nat) : State :=
+  match s.err with
+  | some _ => s
+  | none =>
+    match s.useRoot q with
+    | none => execOp defaultFuel s (.act (.take q k)) hint      -- same `badRoot` handling as `take`
+    | some a =>
+      match s.valOf a with
+      | none => execOp defaultFuel s (.act (.take q k)) hint
+      | some v =>
+        match nthMod v.held k with
+        | none => s
+        | some t =>
+          if t = a then s
+          else
+            let qi := idxMod s.roots q
+            let s1 := execOp defaultFuel s (.act (.take qi k)) hint
+            let l := s1.roots.length - 1
+            let s2 := execOp defaultFuel s1 (.act (.makeMut l)) hint
+            match s2.err with
+            | some _ => s2
+            | none => execOp defaultFuel s2 (.act (.store l qi)) hint
+
+def parseMakeMutField (line : String) : Option (Nat × Nat) :=
+  match (line.trimAscii.toString.splitOn " ").filter (· ≠ "") with
+  | ["makeMutField", a, b] => do some ((← a.toNat?), (← b.toNat?))
+  | _ => none
+
 end Cactus.Driver
